@@ -1381,6 +1381,8 @@ fn run_long(out: &mut Out, rng: &mut Rng, work: &str, user: bool, hdr_ahead: boo
 		Err(e) => format!("err:{}", error_class(&e)),
 	};
 	out.line("chain compact s0", &r);
+	// the blocks below the new body tail lost their spent-index records (remove_historical_blocks)
+	tail_line(out, &kit, &subj, "s0");
 	let tail_after = subj.c().tail().map(|t| t.height).unwrap_or(0);
 	*stats.entry("long:compaction-moved-tail".into()).or_insert(0) += (tail_after > tail_before) as u64;
 	if tail_after <= tail_before {
@@ -1515,47 +1517,59 @@ fn run_long(out: &mut Out, rng: &mut Rng, work: &str, user: bool, hdr_ahead: boo
 			*stats.entry(format!("long:no-branch-prepared-at-tail-height-{}", tail_after)).or_insert(0) += 1;
 		}
 	}
-	// C08: the never-compacted twin, at the end of its life: the walk over its head's path (after
-	// the reorganisations: the abandoned trunk blocks still have their spent-index records but are
-	// not on the path), then the same with the record of one block inside the window deleted behind
-	// the node's back (the walk skips it), then its first compaction
-	{
-		protect_line(out, &kit, &twin, "t0", &mut rstats.borrow_mut());
-		let hd = twin.c().head_header().unwrap();
+	// C08: the walk over the never-compacted twin's head path after the reorganisations: the
+	// abandoned trunk blocks still have their spent-index records but are not on the path
+	protect_line(out, &kit, &twin, "t0", &mut rstats.borrow_mut());
+	// ... and a third node that compacts while one block inside the window has NO spent-index record
+	// (deleted behind the node's back): the walk skips that block
+	if !user && !hdr_ahead {
+		let third = new_rec_subject(&format!("{}/long_u", work), &kit.genesis);
+		out.raw("chain new u0");
+		for i in &trunk[1..] {
+			let r = third.deliver_block(&kit.blks[*i].block);
+			out.line(&format!("chain deliver u0 b{}", i), &r);
+		}
+		discard_status();
+		protect_line(out, &kit, &third, "u0", &mut rstats.borrow_mut());
+		let hd = third.c().head_header().unwrap();
 		let mut victim = None;
 		let mut cur = hd.clone();
-		for _ in 0..6 {
-			cur = match twin.c().get_previous_header(&cur) {
+		for _ in 0..8 {
+			cur = match third.c().get_previous_header(&cur) {
 				Ok(h) => h,
 				Err(_) => break,
 			};
-			if twin.c().store().batch().ok().and_then(|b| b.get_spent_index(&cur.hash()).ok()).map(|l| !l.is_empty()).unwrap_or(false) {
+			if third.c().store().batch().ok().and_then(|b| b.get_spent_index(&cur.hash()).ok()).map(|l| !l.is_empty()).unwrap_or(false) {
 				victim = Some(cur.clone());
 				break;
 			}
 		}
 		if let Some(v) = victim {
-			let r = {
-				let store = twin.c().store();
-				match store.batch() {
-					Ok(mut b) => match b.delete(Some(b'S'), v.hash().as_ref()).and_then(|_| b.commit()) {
+			let store = third.c().store();
+			let r = match store.batch() {
+				Ok(mut b) => {
+					let d = b.delete(Some(b'S'), v.hash().as_ref());
+					match d.and_then(|_| b.commit()) {
 						Ok(_) => "ok".to_string(),
 						Err(e) => format!("err:{:?}", e),
-					},
-					Err(e) => format!("err:{:?}", e),
+					}
 				}
+				Err(e) => format!("err:{:?}", e),
 			};
-			out.line(&format!("chain spentdrop t0 {}", kit.bid(&v.hash())), &r);
-			protect_line(out, &kit, &twin, "t0", &mut rstats.borrow_mut());
-			let r = match twin.c().compact() {
+			out.line(&format!("chain spentdrop u0 {}", kit.bid(&v.hash())), &r);
+			protect_line(out, &kit, &third, "u0", &mut rstats.borrow_mut());
+			let tail_before = third.c().tail().map(|t| t.height).unwrap_or(0);
+			let r = match third.c().compact() {
 				Ok(_) => "ok".to_string(),
 				Err(e) => format!("err:{}", error_class(&e)),
 			};
-			out.line("chain compact t0", &r);
-			protect_line(out, &kit, &twin, "t0", &mut rstats.borrow_mut());
-			out.line("chain obs t0", &twin.obs(&kit));
-			bitmap_oracle(out, &kit, &twin, "t0", "after-compaction-with-a-missing-spent-index-record", &mut rstats.borrow_mut());
-			*stats.entry("long:compaction-with-a-missing-spent-index-record".into()).or_insert(0) += 1;
+			out.line("chain compact u0", &r);
+			tail_line(out, &kit, &third, "u0");
+			let tail_after = third.c().tail().map(|t| t.height).unwrap_or(0);
+			protect_line(out, &kit, &third, "u0", &mut rstats.borrow_mut());
+			out.line("chain obs u0", &third.obs(&kit));
+			bitmap_oracle(out, &kit, &third, "u0", "after-compaction-with-a-missing-spent-index-record", &mut rstats.borrow_mut());
+			*stats.entry(format!("long:compaction-with-a-missing-spent-index-record:tail-moved={}", tail_after > tail_before)).or_insert(0) += 1;
 		}
 	}
 	*stats.entry("long:blocks".into()).or_insert(0) += kit.blks.len() as u64;
@@ -2284,7 +2298,7 @@ fn tx_desc(kit: &Kit, tx: &grin_core::core::Transaction) -> String {
 /// chain and on forks (coinbase on the other side of the fork point; duplicate-excess NRD
 /// kernels before and after a reorganisation that re-applies fork blocks), plus the pool-facing
 /// admission checks of the chain evaluated at every head.
-fn run_c13(out: &mut Out, rng: &mut Rng, work: &str) -> BTreeMap<String, u64> {
+fn run_c13(out: &mut Out, rng: &mut Rng, work: &str, noprobe: bool) -> BTreeMap<String, u64> {
 	out.raw("chain reset");
 	let kit = Kit::new(&format!("{}/builder_c13", work));
 	let mut g = Gen {
@@ -2853,7 +2867,7 @@ fn run_c13(out: &mut Out, rng: &mut Rng, work: &str) -> BTreeMap<String, u64> {
 				out.line(&format!("chain reopen {}", name), &rr);
 				out.line(&format!("chain obs {}", name), &subj.obs(kit));
 			}
-			if r == "ok:head" {
+			if r == "ok:head" && !noprobe {
 				// what the node reports about the kernels of its best chain (looked up in the kernel
 				// data file) is not disturbed by transactions it validated and refused earlier
 				// (get_kernel_height maps positions to heights through the header MMR: only asked
@@ -4008,7 +4022,10 @@ fn main() {
 	let mut out = Out::stdout();
 	let mut total: BTreeMap<String, u64> = BTreeMap::new();
 	if args.get(1).map(|s| s == "c13").unwrap_or(false) {
-		let st = run_c13(&mut out, &mut rng, &work);
+		// `c13 noprobe` (quick tier of C03): the same tree and deliveries without the pool-facing probe
+		// transactions and kernel look-ups after every head change (they belong to C06 / C13)
+		let noprobe = args.get(2).map(|s| s == "noprobe").unwrap_or(false);
+		let st = run_c13(&mut out, &mut rng, &work, noprobe);
 		for (k, v) in st {
 			out.raw(&format!("#STAT {}={}", k, v));
 		}
